@@ -9,7 +9,7 @@ CORRESP. the Coq model PM.Choice against the real code on generated inputs, comp
          obj    is_valid / all / first / infinite / n_bounds of the model applied to the REAL `valid` lists (exact)
          pass   reduce / reduce_end / unique_sequences / except_one: real (iteration order, result) pairs
                 against the model run with that very order (exact, as sets); simplify end to end (semantic)
-         inter  intersection on real `valid` lists (exact), incl. n = 0 and mismatching index
+         inter  intersection on real `valid` lists (exact), incl. n = 0 (regression of fix df06735) and mismatching index
          edge   inputs outside the claimed domain (empty sequence, index >= n): raised exception kinds
 """
 import itertools
@@ -28,20 +28,17 @@ EXPLANATION = (
     "Theorems (props/C04.v, no size bound): every simplification pass and simplify as a whole preserve the accepted set "
     "for every iteration order; build_choices as written (lens/iters enumeration, emptiness filter, vect_new/vect_rm) "
     "yields exactly the accepted vectors; is_valid/all/first/infinite of the generated object agree with `accepted`; "
-    "generate is total on well-formed input (no IndexError, loops terminate); intersection is exact for n > 0 and "
-    "is refuted for n = 0. The model is tied to choice.py by exact per-pass and per-method comparisons and by semantic "
+    "generate is total on well-formed input (no IndexError, loops terminate); intersection is exact for every n, "
+    "0 included (the pre-df06735 filter is kept as a refuted variant). The model is tied to choice.py by exact per-pass and per-method comparisons and by semantic "
     "comparison of generate/build_choices, all evaluated inside Coq; the real code is searched exhaustively for small sizes.")
 ASSUMPTIONS = [
     "domain is a non-empty duplicate-free list of naturals; sequences are non-empty, indices strictly increasing and < n, values in the domain",
     "CPython set iteration order is some permutation of the set (the theorems hold for every permutation oracle)",
-    "n = 0: intersection drops the empty vector in the real code (`if j` on an empty tuple); proved as C04_intersection_n0_refuted, claimed only for n > 0",
 ]
-LEVEL_TEXT = ("Machine-checked proof for all domains, vector lengths and sets of well-formed sequences (16 theorems, closed under the "
+LEVEL_TEXT = ("Machine-checked proof for all domains, vector lengths and sets of well-formed sequences (17 theorems, closed under the "
               "global context) over an executable model of choice.py, plus exhaustive small-size and random differential checks of the real code.")
 LEVEL_NOTE = ("Trusted: Coq kernel; the hand-written model PM.Choice (validated on every run against the real methods, pass by pass, "
-              "with the observed set iteration order); the Python brute-force oracle. The empty sequence () and n = 0 intersection are outside the claim.")
-
-N0_SIG = ["C04", "intersection-n0-drops-empty-vector"]
+              "with the observed set iteration order); the Python brute-force oracle. The empty sequence () is outside the claim.")
 
 # ---------------------------------------------------------------------------
 # oracle (independent of pymwp)
@@ -568,7 +565,7 @@ def search(ctx):
             failing.append(r)
 
     # -- exhaustive: all sets of well-formed sequences
-    configs = [(1, 1, None), (1, 2, None), (1, 3, None), (2, 1, None), (3, 1, None), (4, 1, None), (2, 2, None), (3, 2, None),
+    configs = [(1, 0, None), (2, 0, None), (3, 0, None), (1, 1, None), (1, 2, None), (1, 3, None), (2, 1, None), (3, 1, None), (4, 1, None), (2, 2, None), (3, 2, None),
                (2, 3, ctx.n(5, 6)), (3, 3, ctx.n(2, 4)), (4, 2, ctx.n(3, 5))]
     jobs = []
     for k, n, card in configs:
@@ -609,6 +606,7 @@ def search(ctx):
     # -- exhaustive intersections: |dom|=2,n=2 all 256x256 pairs; sampled pairs for |dom|=3,n=2
     pairs = [(a, b) for a in range(256) for b in range(a, 256)]
     ijobs = [(2, 2, pairs[i:i + 2100]) for i in range(0, len(pairs), 2100)]
+    ijobs += [(k, 0, [(0, 0)]) for k in (1, 2, 3)] + [(k, 1, [(a, b) for a in range(1 << k) for b in range(1 << k)]) for k in (1, 2, 3)]
     m32 = 1 << 15
     np32 = ctx.n(6000, 60000)
     p32 = [(rng.randrange(m32), rng.randrange(m32)) for _ in range(np32)]
@@ -691,30 +689,6 @@ def search(ctx):
         outside.append({"dom": dom, "n": n, "S": [list(map(list, s)) for s in S], "observed": obs})
     st["outside_claimed_domain"] = {"note": "empty sequence () [finding D9], index >= n, duplicate or empty domain: not well-formed, recorded only",
                                     "cases": outside}
-
-    # -- n = 0 intersection (inside the literal quantifier, refuted in Coq): policy below
-    n0 = None
-    try:
-        a = T(Choices.generate, [0, 1, 2], 0, set())
-        c = Choices.intersection(a, a)
-        if a.is_valid() and not c.is_valid():
-            try:
-                f = repr(c.first)
-            except Exception as e:
-                f = "raises " + type(e).__name__
-            n0 = {"what": "intersection at vector length 0 drops the empty vector (choice.py:558 `if j` on an empty tuple)",
-                  "sig": N0_SIG, "input": jcase("intersection", [0, 1, 2], 0, [], []),
-                  "expected": "accepts () like both operands", "observed": {"valid": c.valid, "is_valid()": False, "first": f}}
-    except Exception as e:
-        n0 = {"what": "intersection at vector length 0 raises", "sig": N0_SIG, "input": jcase("intersection", [0, 1, 2], 0, [], []),
-              "expected": "accepts ()", "observed": vlib.exc_sig(e)}
-    listed = any(e.get("property") == ID and e.get("sig") == N0_SIG for e in vlib.known_findings().get("open", []))
-    st["n0_intersection"] = {"fails": n0 is not None, "listed_in_known_findings": listed,
-                             "policy": "reported as a failing input only when listed in known_findings.json (then shown as KNOWN-FINDING); "
-                                       "otherwise recorded here and proved as C04_intersection_n0_refuted; the claim is for n > 0",
-                             "witness": n0["input"] if n0 else None, "observed": n0["observed"] if n0 else None}
-    if n0 is not None and listed:
-        failing.append(n0)
 
     stats = {"evaluations": ev, "distinct_nontrivial": n_exh + len(distinct),
              "rule": "search: every set of well-formed sequences for the (|dom|, n) listed under `exhaustive` (cardinality-bounded where stated) "
@@ -1040,14 +1014,6 @@ def run(ctx):
 
 def replay(ctx, data):
     case = data.get("input", data) if isinstance(data, dict) else data
-    if isinstance(case, dict) and case.get("kind") == "intersection" and case.get("n") == 0:
-        Choices = _C()
-        a = Choices.generate(list(case["dom"]), 0, set())
-        c = Choices.intersection(a, a)
-        if a.is_valid() and not c.is_valid():
-            return {"what": "intersection at vector length 0 drops the empty vector", "sig": N0_SIG, "input": case,
-                    "expected": "accepts ()", "observed": {"valid": c.valid}}
-        return None
     if not isinstance(case, dict) or "kind" not in case:
         r = search(ctx)[0]
         return r[0] if r else None
